@@ -15,6 +15,8 @@ pub mod framed;
 pub mod c11;
 #[cfg(kani)]
 pub mod c12;
+#[cfg(kani)]
+pub mod c12r;
 #[cfg(all(kani, compio_rs_compio_verif))]
 pub mod c11buf;
 /// concrete-playback tests are written here by `./check --replay` (committed empty)
